@@ -23,32 +23,32 @@ CLAIMED = {
         technique="Lean 4 theorems (OpenTelemetry conversion invertible; Jaeger id split, varint and zigzag round trips; µs loss bound; Datadog meta keys) + byte-exact differential run of the three real reporters (loopback UDP, loopback HTTP, capturing exporter) against the Lean encoders + independent python Thrift/msgpack decoders as oracle",
         text="Kernel-checked: C19_otel_faithful (every field of every well-formed record is recoverable from the exported SpanData), C19_jaeger_ids_lossless, C19_varint_roundtrip, C19_zigzag_roundtrip, C19_jaeger_time_loss, C19_meta_keys_subset. "
              "Tie and remaining assurance: the Lean models of thrift_codec's compact encoding, rmp-serde's struct-map encoding and the OTel conversion must reproduce the real reporters' output byte for byte (Datadog: equal after decoding, meta is a HashMap) on every generated batch, and independent decoders check on the real bytes that each record appears exactly once, in order, with ids/name/times/properties/events unchanged up to the stated format limits.",
-        note="Partial: whole-message Thrift and msgpack decode(encode)=id theorems are not yet proved in Lean (primitives are); that half is covered by decoding the real bytes with independent decoders on every run. Trusted: Lean kernel; models of thrift_codec/rmp-serde/opentelemetry_sdk (compared, not proved); reqwest and the loopback stack; records with begin+duration >= 2^64 are excluded (no collector cycle produces them; D11).",
+        note="Whole-message round trips are proved (C19_thrift_roundtrip, C19_jaeger_roundtrip, C19_datadog_roundtrip) under explicit well-formedness guards; the proved decoders and independent python decoders both run on the real bytes. Trusted: Lean kernel; models of thrift_codec/rmp-serde/opentelemetry_sdk (compared, not proved); reqwest and the loopback stack; records with begin+duration >= 2^64 are excluded (no collector cycle produces them; D11).",
         design="§4 C19"),
 
     "C01": dict(
-        technique="Lean 4: collector conservation theorem (report of a default-configuration cycle is a permutation of exactly the submitted span sets, one per token item; Flushed/KeysNodup invariants) + drain lemmas; differential fh-seq vs model incl. stepped drains and thread exit; independent python spec oracle (exactly-once, due cycle)",
-        text="Kernel-checked for every collector state and every drained batch: C01_cycle_reports_everything_once (nothing drained is held back, duplicated or invented; the stale path for late spans gives the same result), with the invariants it needs proved preserved and initially true. Drain: C08_drain_batch / C08_drain_removes_dead. "
+        technique="Lean 4: whole-program end-to-end theorems over `run` with history variables (E2E_conservation: accepted = in flight + consumed + discarded + lost at exit, per token item; E2E_default_flush_exactly_once: after a flush the reported records are exactly the records of every accepted span set, once), built on the collector conservation theorem (report of a default-configuration cycle is a permutation of exactly the submitted span sets, one per token item; Flushed/KeysNodup invariants) + drain lemmas; differential fh-seq vs model incl. stepped drains and thread exit; independent python spec oracle (exactly-once, due cycle)",
+        text="Kernel-checked for every collector state and every drained batch: C01_cycle_reports_everything_once (nothing drained is held back, duplicated or invented; the stale path for late spans gives the same result), with the invariants it needs proved preserved and initially true. Drain: C08_drain_batch / C08_drain_removes_dead. Over EVERY program of the model (Props/E2E.lean, invariants ChanInv / Dflt / HasRep proved preserved by all 46 operations): E2E_conservation, E2E_overflow_only_signals, E2E_default_reports_consumed, E2E_flush_delivers(_starts/_collections), E2E_default_flush_exactly_once (default configuration, reporter installed first: when flush() returns, reported records = records of every span set any channel accepted, each exactly once). "
              "Tie: programs with 1-3 logical threads (real OS threads, real TLS destructors), hand-off of spans between threads, thread exit, cycles at every position (whole, or stepped through the verif hook points incl. the empty-pop/abandoned-check window), run against the real crate and the Lean model; an independent specification checks that every finished sampled span is delivered exactly once, in the report of the first cycle after it finished.",
-        note="Partial: the composition 'every accepted command is drained exactly once' over all interleavings of ring pushes and pops is proved at the channel level in C09's theorems, not yet as one end-to-end theorem over `run`; the wall-clock bound (one report interval) is outside the model. Trusted: rtrb as a sequentially consistent FIFO; python spec.",
+        note="The end-to-end composition over `run` is now one theorem (E2E_default_flush_exactly_once) at the model's operation granularity; interleavings of single ring pushes with pops are the channel theorems of C09; the wall-clock bound (one report interval) is outside the model. History variables (Sys.g) are written by sendCmd/finishCycle/exitThread only and read by no operation. Trusted: rtrb as a sequentially consistent FIFO; python spec.",
         design="§4 C01"),
     "C02": dict(
         technique="Lean 4: id generator lemmas (non-zero, distinct in a thread for <2^32 draws, distinct across prefixes), token lemmas, collector stamping lemma (postprocess_core / C02_collection_stamps), whole-program trace-id provenance invariant over `run` (C02_trace_ids_from_roots); differential fh-seq vs model; python spec oracle comparing every delivered (trace, parent) with the parent at creation",
-        text="Kernel-checked: C02_nth_id, C02_id_nonzero, C02_ids_distinct_in_thread, C02_ids_distinct_across_threads; C02_issueToken, C02_childN_token, C02_currentToken_parent, C02_startSpan, C02_finishSpan_restores (with the frame theorem C10 this is 'innermost open local span'); C02_postprocess_cores + C02_collection_stamps (for every batch and collector state each record carries its token item's trace id and the raw or token parent; mounting never changes ids/parents); C02_trace_ids_from_roots: for EVERY program of the model (all ops, threads, cycle placements, overload, exit) every reported record's trace id was supplied to a sampled root op (invariant Prov over span handles, adapters, span lines, rings, overflow lists, drain buffer, collections). "
+        text="Kernel-checked: C02_nth_id, C02_id_nonzero, C02_ids_distinct_in_thread, C02_ids_distinct_across_threads; C02_issueToken, C02_childN_token, C02_childN_noop (D16 fix), C02_currentToken_parent, C02_startSpan, C02_finishSpan_restores (with the frame theorem C10 this is 'innermost open local span'); C02_postprocess_cores + C02_collection_stamps (for every batch and collector state each record carries its token item's trace id and the raw or token parent; mounting never changes ids/parents); C02_trace_ids_from_roots: for EVERY program of the model (all ops, threads, cycle placements, overload, exit) every reported record's trace id was supplied to a sampled root op (invariant Prov over span handles, adapters, span lines, rings, overflow lists, drain buffer, collections). "
              "Tie: generated programs (multi-parent spans across traces, nested scopes with open local spans, spans finished on any thread, cycles anywhere) on the real crate vs the model; oracle with unique span names checks trace id, parent id, id uniqueness of every delivered record.",
         note="Assumes fewer than 2^32 ids per thread and distinct random thread prefixes (D12, environmental; the idSweep scenario measures prefix reuse over 70000 real threads). Trace ids are proved end-to-end over whole programs; the parent-id part of the end-to-end statement is still the composition of the proved parts (token lemmas + C10 frame + collector stamping), validated by the spec oracle.",
         design="§4 C02"),
     "C03": dict(
         technique="Lean 4: exact characterisation of a cancelable cycle's report (cancelable_cycle_records / commitGroups) + per-id buffering lemma; differential fh-seq vs model; python spec oracle (nothing before commit, single report, completeness)",
-        text="Kernel-checked for every collector state and batch: C03_report_is_emitted (report = buffered span sets of the ids committed in this batch), C03_only_at_commit, C03_no_commit_no_records, C03_single_report (each id once, not retained afterwards), C03_whole (emitted group = everything buffered before ++ everything routed in this batch, in order), C03_held_accumulates. "
+        text="Kernel-checked for every collector state and batch: C03_report_is_emitted (report = buffered span sets of the ids committed in this batch), C03_only_at_commit, C03_no_commit_no_records, C03_single_report (each id once, not retained afterwards), C03_whole (emitted group = everything buffered before ++ everything routed in this batch, in order), C03_held_accumulates; the drain: C03_second_pass_collects_all, C03_finish_defers_second_pass_commits, C03_split_no_commit, C03_second_pass_waits_for_start (D14 repair: a cancel / span set first seen in the second pass is consumed in this cycle only if its trace is active; otherwise it is carried to the next cycle). "
              "Tie: cancelable programs with children finishing on other threads before the root, cycles between every pair of events; oracle checks per trace: no record before the root's commit, all earlier-finished spans in that one report, nothing afterwards.",
-        note="Completeness across threads needs every command pushed before the root's commit to be drained no later than it: this was defect D4 (witness corpus/C03/D4-*.txt, replayed on the unfixed code) and is fixed in /repo by the two-pass drain (bd94330); the model has the same two passes (Sys.cycStep phases atRx2 / deferred commits). The theorems characterise the report relative to the drained batch; that the second pass makes the batch a consistent cut is argued in DESIGN.md and exercised by stepped cycles with operations between the steps, not yet one Lean theorem over histories.",
+        note="Completeness across threads needs every command pushed before the root's commit to be drained no later than it, and no command to be consumed before older commands of its own trace: defects D4 (two-pass drain, bd94330) and D14 (second-pass commands carried to the next cycle, e2fbc0a), both replayed on the unfixed code and fixed in /repo; the model has the same passes (Sys.cycStep phases atRx2, deferred commits, Sys.carried / splitSecond). The theorems characterise the report relative to the batch a cycle hands to the processing loops; that this batch is causally closed is argued in DESIGN.md and exercised by stepped cycles with operations of all threads between the steps (random streams and witnesses), not one Lean theorem over histories (the model has no happens-before relation). A thread's first tracing call during a drain blocks (background operations bgBegin/bgEnd).",
         design="§4 C03"),
     "C04": dict(
         technique="Lean 4: drop-before-submit-before-commit lemmas, default-configuration no-op theorem (C04_noop_default_cycle); differential fh-seq vs model; python spec oracle",
         text="Kernel-checked: C04_dropped_not_emitted (a consumed drop suppresses the id in that cycle even with the commit in the same batch, and releases it), C04_late_submits_discarded, C04_others_unaffected, C04_noop_default / C04_noop_default_cycle (D9 fix: in the default configuration removing all drop commands from a batch changes nothing). "
              "Tie: programs cancelling roots at arbitrary points in both configurations, multi-parent spans shared with non-cancelled traces; oracle checks nothing of a cancelled trace is ever delivered, every other trace exactly as specified, and that cancel() without cancelable(true) changes nothing (attachments parked before the cancel survive).",
-        note="'Once cancel() has been called' needs the drop to be drained no later than the commit: same thread by FIFO of forced commands (C09, D2 fix); across threads by the two-pass drain (D4 fix bd94330, witness corpus/C04/D4-*.txt). Open finding D3 (a thread exiting with parked commands and a full queue can lose the drop) remains noted.",
+        note="'Once cancel() has been called' needs the drop to be drained no later than the commit: same thread by FIFO of forced commands (C09, D2 fix); across threads by the two-pass drain (D4 fix bd94330, witness corpus/C04/D4-*.txt) and the carried second-pass commands (D14 fix e2fbc0a, witness corpus/C04/D14-*.txt). Open finding D3 (a thread exiting with parked commands and a full queue can lose the drop) remains noted.",
         design="§4 C04"),
     "C05": dict(
         technique="Lean 4: whole-program invariant Prov proved preserved by every operation (C05_only_sampled_roots_delivered, C05_unsampled_trace_silent: for every program, no report contains a record of a trace that has no sampled root), plus flag-copy lemmas, submit filter theorem, unsampled-root theorem, scope any-sampled lemma; differential fh-seq vs model; python spec oracle",
@@ -60,19 +60,19 @@ CLAIMED = {
         technique="Lean 4: parking/mounting theorems (C06_park_order, C06_mount_exact under DistinctIds, C06_apply_items, D10 witness); differential fh-seq vs model; python spec oracle on properties/events of every record; known finding D10 replayed",
         text="Kernel-checked for every record list, parked map and string content: parking keeps per-target arrival order and does not disturb other targets; mounting gives each record exactly the items parked under its id, in order, after its own, removes them, and leaves other ids' items untouched (under DistinctIds); strings are only moved. C06_D10_witness shows the open finding. "
              "Tie: attachments through every route (creation, span handle from any thread, local parent), arbitrary UTF-8 keys/values/names, cycles between attachment and finish, both configurations.",
-        note="Open finding D10 (KNOWN_FINDINGS.txt): a span set delivered twice into one trace. Cross-thread attachments relied on the consistent cut: defect D4, fixed in /repo (bd94330), witness corpus/C06/D4-*.txt.",
+        note="Open finding D10 (KNOWN_FINDINGS.txt): a span set delivered twice into one trace. Cross-thread attachments relied on the consistent cut: defects D4 (bd94330), D14 and D14b (e2fbc0a: without cancelable the record of a thread-safe span first seen in the second pass waits one cycle for attachments made before it finished), witnesses corpus/C06/D4-*, D14-*, D14b-*.txt.",
         design="§4 C06"),
     "C07": dict(
         technique="Lean 4: assertion-validity theorems derived from the frame invariant (C07_local_drop_asserts, C07_scope_drop_asserts), totality/limit theorems for the repaired paths (D6, D7, D8), bounded send; implementation run under catch_unwind + deadline on wild call sequences incl. TLS-teardown calls, 4100 nested scopes, 10245 local spans, full ring",
         text="Kernel-checked: at every guard drop of a well-nested program the handle is in range, epochs agree, next_parent_id is the span being closed, the scope token is present (so no debug_assert or index panic on those paths); current_local_parent() is total; the scope/queue limits yield no-op guards; closures run outside the stack borrow; send/force_send push at most pending+1 times. "
-             "Tie: every generated call sequence (incl. re-entrant closures, no reporter, no-op/unsampled spans, empty parent sets, calls from thread-local destructors) runs on a debug build under catch_unwind with a per-call deadline; corpus holds the D6/D7/D8 witnesses (panic on the unfixed code, confirmed).",
+             "Tie: every generated call sequence (incl. re-entrant closures, no reporter, no-op/unsampled spans, empty parent sets, calls from thread-local destructors) runs on a debug build under catch_unwind with a per-call deadline; corpus holds the D6/D7/D7b/D8 witnesses (panic on the unfixed code, confirmed); a probe in a thread-local registered before the thread's first tracing call runs a battery of API calls after fastrace's own thread-locals are destroyed (incl. SpanContext::random(): defect D18, fixed in /repo 275e7dd).",
         note="Partial: blocking in allocator/OS/parking_lot and lock ordering are not expressible in the functional model (source-level argument in DESIGN.md).",
         design="§4 C07"),
     "C08": dict(
         technique="Lean 4: exact retained-key-set theorem for a cycle and its corollaries over batch histories; drain lemmas for receivers; differential incl. verif::collector_stats(); python oracle on final stats",
         text="Kernel-checked for every state/batch/history: C08_retained_ids (retained = (old ∪ started) \\ committed \\ dropped-when-cancelable), C08_commit_releases, C08_drop_releases, C08_only_started, C08_history; C08_drain_removes_dead / C08_drain_batch for receivers of exited threads. "
              "Tie: collector_stats() (active ids with buffered/parked counts, registered receivers) compared with the model after every program and checked against the open-trace / live-thread count of the specification.",
-        note="Defect D4 (a start drained after its commit was never removed) is fixed in /repo by the two-pass drain (bd94330); witness corpus/C08/D4-*.txt. D3 (thread exit with parked commands on a full queue) remains noted.",
+        note="Defect D4 (a start drained after its commit was never removed) is fixed in /repo by the two-pass drain (bd94330); witness corpus/C08/D4-*.txt. Whole programs: E2E_conservation accounts for every accepted start/commit/drop (E2E_flush_delivers_starts). D3 (thread exit with parked commands on a full queue) remains noted.",
         design="§4 C08"),
     "C10": dict(
         technique="Lean 4: frame theorem by mutual structural induction over well-nested block programs (C10_frame), thread isolation (exec_th_other), inertness; differential fh-seq vs model with ctxLocal probes around every scope; spec oracle",
@@ -83,22 +83,22 @@ CLAIMED = {
     "C11": dict(
         technique="Lean 4: from_span / current_local_parent characterisation theorems, root-token theorem, collector stamping, traceparent round trip (C12); differential fh-seq vs model; spec oracle on every extracted context",
         text="Kernel-checked: C11_from_span, C11_from_noop, C11_local (incl. None for empty token, D6 fix), C11_root_token, C11_rootFrom_token, C11_record_of_item, C11_via_traceparent; over whole programs: C11_context_belongs_to_a_root (any context extracted anywhere in any program names a trace created by a root op of that program, with that root's sampling decision). Tie: contexts extracted at every program point compared with model and specification (trace id, span id of the named span, sampled flag).",
-        note="The link 'root created from an extracted context is delivered under that span' is the composition C11_root_token + C11_record_of_item; roots created from observed contexts (`rootFrom` / `rootFromLocal`: SpanContext::from_span / current_local_parent, directly or through a real traceparent encode/decode) are generated dynamically and checked by the tree / exactly-once / contexts oracles; C11_rootFrom_token is the model-level statement. In those programs multi-parent spans are switched off (copies with equal name, trace and parent could not be told apart by the oracle).",
+        note="The link 'root created from an extracted context is delivered under that span' is the composition C11_root_token + C11_record_of_item; roots created from observed contexts (`rootFrom` / `rootFromLocal`: SpanContext::from_span / current_local_parent, directly or through a real traceparent encode/decode) are generated dynamically and checked by the tree / exactly-once / contexts oracles; C11_rootFrom_token is the model-level statement. In those programs (every second one) multi-parent spans are switched off (copies with equal name, trace and parent could not be told apart by the oracle); the others, and two directed scenarios, have mixed sampled/unsampled multi-parent scopes.",
         design="§4 C11"),
     "C16": dict(
         technique="Lean 4: inertness/laziness theorems for non-recording spans and empty local context, stateless disabled model; differential: the same programs on the real crate built with and without `enable` (fh-seq / fh-off) vs the two models; closure-invocation oracle; /proc thread count",
-        text="Kernel-checked: C16_*_noop family (no closure call, state unchanged / SameWire), C16_child_of_noop, C16_root_before_reporter, C16_scope_noop, C16_local_inert, C16_disabled; whole programs: C16_no_reporter_program_inert (a program that never installs a reporter — any threads, scopes, collectors, adapters, cycles — never returns a report with records, a context, an elapsed() value, nor runs a closure given to a span handle; invariant NoRep). Tie: every program also runs against fastrace compiled without the enable feature: every answer must be the no-op answer, no closure runs, no fastrace thread exists, the reporter is never called.",
-        note="Event::with_properties evaluates eagerly when enabled (closure passed to an Event, not to a span).",
+        text="Kernel-checked: C16_*_noop family (no closure call, state unchanged / SameWire), C16_child_of_noop, C16_root_before_reporter, C16_scope_noop, C16_local_inert, C16_disabled; whole programs: C16_no_reporter_program_inert (a program that never installs a reporter — any threads, scopes, collectors, adapters, cycles — never returns a report with records, a context, an elapsed() value, nor runs a closure given to a span handle; invariant NoRep; since the D16 repair this includes enter_with_parents over no-op parents). Tie: every program also runs against fastrace compiled without the enable feature: every answer must be the no-op answer, no closure runs, no fastrace thread exists, the reporter is never called.",
+        note="Event::with_properties evaluates eagerly when enabled (closure passed to an Event, not to a span); the deprecated Event::add_to_parent / add_to_local_parent are built on it and are not exercised. Defect D16 (a span derived only from no-op spans was live: closures ran, elapsed() was Some) fixed in /repo (4d8ed8e), witness corpus/C16/D16-*.txt.",
         design="§4 C16"),
     "C17": dict(
         technique="Lean 4: to_span_records = postprocess of the same set; copies identical up to trace/root parent; open spans closed at collection time; differential + copy-comparison oracle; known finding D10",
-        text="Kernel-checked: C17_to_records_is_postprocess, C17_copies_identical, C17_parents, C17_open_span_closed_at_collect. Tie: random forests captured by LocalCollector, pushed to several parents across traces and converted with to_span_records; copies compared id-by-id.",
+        text="Kernel-checked: C17_to_records_is_postprocess, C17_copies_identical, C17_parents, C17_open_span_closed_at_collect. Tie: random forests captured by LocalCollector, pushed to several parents across traces and converted with to_span_records; copies compared id-by-id; a timed sub-run (every call bracketed by clock readings) checks that spans open at collection are closed at the collection time in every copy.",
         note="Open finding D10 when two of the N parents share a trace. Absolute times use different anchors (durations compared with tolerance).",
         design="§4 C17"),
 
     "C09": dict(
         technique="Lean 4: step-granularity channel model with universally quantified pop placements; refinement-to-queue theorem, forced-never-dropped, FIFO, lossy-only-when-full, capacity, drop-sublist; differential on the real spsc::bounded(k) with pops injected before individual ring pushes (SenderBeforePush hook), exhaustive short sequences; overload scenarios on the real 10240-slot queue",
-        text="Kernel-checked for every capacity and every interleaving of the sender's individual ring pushes with consumer pops: C09_channel_is_a_queue (received ++ ring ++ parked grows by exactly the accepted value), C09_forced_never_dropped, C09_forced_fifo (finish/cancel signals exactly once, in order, never overtaken: D2 fix), C09_lossy_only_when_full, C09_capacity, C09_pops_preserve, C09_drop_sublist (thread exit only deletes). Local limits: C07_queue_at_limit / C07_scope_at_limit. "
+        text="Kernel-checked for every capacity and every interleaving of the sender's individual ring pushes with consumer pops: C09_channel_is_a_queue (received ++ ring ++ parked grows by exactly the accepted value), C09_forced_never_dropped, C09_forced_fifo (finish/cancel signals exactly once, in order, never overtaken: D2 fix), C09_lossy_only_when_full, C09_capacity, C09_pops_preserve, C09_drop_sublist (thread exit only deletes). Local limits: C07_queue_at_limit / C07_scope_at_limit. Whole programs (Props/E2E.lean): E2E_conservation (nothing accepted is lost or duplicated anywhere between channel and processing loops), E2E_overflow_only_signals (a best-effort send is never parked). "
              "Tie: the real Sender/Receiver with capacities 1-8: all op sequences up to length 4 (quick) / 6 (thorough) over {send, force_send, pop, force_send with a pop before every push} plus random longer ones with random pop placements and sender drop, compared with the model and checked by an independent FIFO oracle; four scenarios that fill the real 10240-slot queue (cancel / finish / start while full, recovery afterwards) compared with the system model and with explicit expectations.",
         note="Open finding D3: Sender::drop at thread exit loses parked commands when the ring is full (C09 limits itself to 'while the thread lives'; witness in Props/C09.lean). rtrb is modelled as a FIFO with exact capacity.",
         design="§4 C09"),
@@ -118,13 +118,13 @@ CLAIMED = {
     "C15": dict(
         technique="Lean 4: decision-logic theorems of the attribute macro (rejection table, name expression, wrapper choice, unescape_format_string); wrapper semantics by C10/C13; translation-style differential: annotated/plain twin functions compiled with the real macro and compared on results, side effects, panics, recorded spans; Lean decision model compared with the real macro's observable decisions",
         text="Kernel-checked: C15_rejections, C15_name, C15_wrapper, C15_unescape_plain, C15_unescape_format_unchanged, C15_unescape_examples; the run-time behaviour of the three wrappers is C10_frame (LocalSpan guard), C13 (in_span / enter_on_poll). "
-             "Tie: twins over sync / async (with and without a Pending poll) / generic / lifetime / &self,&mut self,self methods / async methods / async-trait impls × attribute forms × bodies (plain, early return, `?`, panic) are generated from the seed, compiled against /repo's macro and executed with and without a local parent: equal return values, side-effect logs and unwind payloads; exactly one span (one per poll with enter_on_poll) with the configured/short/func_path!() name, the configured properties with format strings evaluated, parent = the caller's local parent; nothing without a local parent.",
+             "Tie: twins over sync / async (with and without a Pending poll, the await written out or generated by a macro; also two calls in flight polled alternately) / generic / lifetime / &self,&mut self,self methods / async methods / async-trait impls × attribute forms × bodies (plain, early return, `?`, panic) are generated from the seed, compiled against /repo's macro and executed with and without a local parent: equal return values, side-effect logs and unwind payloads; exactly one span (one per poll with enter_on_poll) with the configured/short/func_path!() name, the configured properties with format strings evaluated, parent = the caller's local parent; nothing without a local parent.",
         note="Defect D15 (statements before a Box::pin(async move {..}) tail were dropped by the macro) fixed in /repo (e541291), witness twin boxed_plain/boxed_traced; annotated functions called during thread-local teardown are covered by the tls_teardown twins. Partial by nature: that the expansion equals 'wrapper around the unchanged body' for all Rust functions is validated on generated twins, not proved (no Lean semantics of Rust). Rejections of malformed attributes are covered by the repository's trybuild ui test (baseline) and by C15_rejections on the model.",
         design="§4 C15"),
     "C18": dict(
         technique="Lean 4: duration/begin formulas of the collector, strictly increasing logical clock, finish-after-begin, begin instants strictly increasing along a scope's queue, nesting/disjointness of local-span intervals by induction over block trees, elapsed(); relational tie: every API call bracketed by monotonic and wall-clock readings, window checks on every delivered record",
         text="Kernel-checked: C18_duration_span, C18_duration_local (open spans end at collection time), C18_begin_plus_duration (monotone conversion), C18_clock_strict, C18_finish_after_begin, C18_queue_begins_increase, C18_elapsed; C18_local_spans_nest and C18_siblings_disjoint: for every well-nested tree of local spans / events / properties (any depth, unbounded), everything recorded inside a local span lies strictly inside its (begin, end) and sibling blocks do not overlap (mutual induction over the block structure, Lemmas/Nesting.lean). "
-             "Tie: the harness brackets every call with std Instant / SystemTime readings; per delivered record: duration within the window between creating and finishing call, begin inside the creating call's wall-clock window, event timestamps inside the span's interval, local children inside local parents and siblings disjoint (same report = same anchor), elapsed() in its window; and the implementation's zero/non-zero durations agree with the model's clock readings.",
+             "Tie: the harness brackets every call with std Instant / SystemTime readings; per delivered record: duration within the window between creating and finishing call, begin inside the creating call's wall-clock window, event timestamps inside the span's interval (also for Event values built before the span was entered), elapsed() Some exactly for recording spans, local children inside local parents and siblings disjoint (same report = same anchor), elapsed() in its window; and the implementation's zero/non-zero durations agree with the model's clock readings.",
         note="Partial: the real clock cannot be injected, so model instants and real instants are related through windows, not equated; fastant's conversion is assumed monotone and its TSC consistent across cores. Interval containment of nested local spans and sibling disjointness are theorems of the model (C18_local_spans_nest, C18_siblings_disjoint) and are checked on the implementation's records.",
         design="§4 C18"),
 }
